@@ -642,6 +642,84 @@ pub fn run(tier: Tier) -> i32 {
             extra: vec![],
         });
     }
+    // working sinks and sources that are not regular files: what arrives must be what a regular file
+    // or a captured stdout would hold
+    {
+        let spec = crate::refmodel::RefArray::from_fn(&[3, 4], |f, _| f as f64 + 1.5);
+        let text = crate::subject::text_of(&spec).into_bytes();
+        let mut jobs: Vec<(Vec<&str>, &str)> = Vec::new();
+        for base in [vec!["view"], vec!["view", "-O", "npy"], vec!["view", "--precision", "2"], vec!["fold"], vec!["fold", "--fill", "zero"], vec!["view", "-O", "npy", "-m", "0"]] {
+            for sink in ["fifo", "/dev/stdout", "/dev/null", "/dev/fd/1"] {
+                jobs.push((base.clone(), sink));
+            }
+        }
+        let res = par_map(jobs.len(), |k| {
+            let (base, sink) = &jobs[k];
+            let reference = run_sfs(base, Stdin::Bytes(&text), &scratch);
+            let oflag = if base[0] == "fold" { "--output" } else { "-o" };
+            let mut a: Vec<&str> = base.clone();
+            let (o, arrived) = match *sink {
+                "fifo" => {
+                    a.extend([oflag, "{FIFO}"]);
+                    crate::cli::run_sfs_output_fifo(&a, &text, ".out", &scratch)
+                }
+                path => {
+                    a.extend([oflag, path]);
+                    let o = run_sfs(&a, Stdin::Bytes(&text), &scratch);
+                    let got = o.stdout.clone();
+                    (o, got)
+                }
+            };
+            let ok = reference.ok() && o.ok() && (*sink == "/dev/null" || arrived == reference.stdout);
+            if ok {
+                None
+            } else {
+                Some((
+                    format!("C18|cli|non-regular-sink|{}|{}", base.join(" "), if *sink == "fifo" { "fifo" } else { sink }),
+                    format!("sfs {a:?}: {} {}; {} bytes arrived at the sink, the same command without {oflag} prints {} bytes", o.status_str(), o.stderr_str().trim(), arrived.len(), reference.stdout.len()),
+                    J::obj([("kind", J::s("c18-sink")), ("argv", J::strs(base)), ("sink", J::s(*sink))]),
+                ))
+            }
+        });
+        for v in res.into_iter().flatten() {
+            rep.violation(v.0, v.1, v.2);
+        }
+        // sources: every container given by path through a named pipe and /dev/stdin, and through a pipe on stdin
+        let mut sj: Vec<(Container, crate::cli::Transport, Vec<&str>)> = Vec::new();
+        for c in Container::all() {
+            for t in [crate::cli::Transport::PathFifo, crate::cli::Transport::PathDevStdin, crate::cli::Transport::StdinPipe] {
+                for args in [vec!["create"], vec!["create", "-p", "1"], vec!["create", "--threads", "1"]] {
+                    sj.push((c, t, args));
+                }
+            }
+        }
+        let res2 = par_map(sj.len(), |k| {
+            let (c, t, args) = &sj[k];
+            let bytes = render(&cs, *c, &Layout::Single);
+            let reference = crate::cli::run_sfs_transport(args, &bytes, crate::cli::Transport::PathFile, c.suffix(), &scratch);
+            let o = crate::cli::run_sfs_transport(args, &bytes, *t, c.suffix(), &scratch);
+            if reference.ok() && o.ok() && o.stdout == reference.stdout {
+                None
+            } else {
+                Some((
+                    format!("C18|cli|non-regular-source|{}|{t:?}", c.name()),
+                    format!("sfs {args:?} on a {} call set over {t:?}: {} {}; from a regular file: {} with {} bytes of output", c.name(), o.status_str(), o.stderr_str().trim(), reference.status_str(), reference.stdout.len()),
+                    J::obj([("kind", J::s("c18-source")), ("container", J::s(c.name())), ("transport", J::s(format!("{t:?}"))), ("argv", J::strs(args))]),
+                ))
+            }
+        });
+        for v in res2.into_iter().flatten() {
+            rep.violation(v.0, v.1, v.2);
+        }
+        rep.part(Part {
+            name: "cli: sinks and sources that are not regular files".into(),
+            evaluations: (jobs.len() + sj.len()) as u64,
+            nontrivial: (jobs.len() + sj.len()) as u64,
+            note: "view (text, npy, precision, marginalized npy) and fold (two fills) with -o / --output on a named pipe, /dev/stdout, /dev/fd/1 and /dev/null: success, and the bytes that arrive equal the stdout of the same command; create (default, -p 1, --threads 1) on each container through a named pipe by path, /dev/stdin and a pipe on stdin: same stdout as from a regular file".into(),
+            exhaustive: true,
+            extra: vec![],
+        });
+    }
     rep.exhaustive = true; // the deciding L1 enumeration is complete; the pipe part is confirmation only
     rep.assumptions = vec![
         "read-side observation uses a replica of the 10-line CLI runner loop over the real site::Reader".into(),
